@@ -7,49 +7,49 @@
 //   	 - Description: "dereference failure: invalid integer address"
 //   	 - Location: miniz_oxide/src/inflate/core.rs:433:23 in function <inflate::core::State as core::cmp::PartialEq>::eq
 //   
-//   Check 349: <inflate::core::State as core::cmp::PartialEq>::eq.pointer_dereference.7
+//   Check 350: <inflate::core::State as core::cmp::PartialEq>::eq.pointer_dereference.7
 //   	 - Status: SUCCESS
 //   	 - Description: "dereference failure: pointer NULL"
 //   	 - Location: miniz_oxide/src/inflate/core.rs:433:23 in function <inflate::core::State as core::cmp::PartialEq>::eq
 //   
-//   Check 350: <inflate::core::State as core::cmp::PartialEq>::eq.pointer_dereference.8
+//   Check 351: <inflate::core::State as core::cmp::PartialEq>::eq.pointer_dereference.8
 //   	 - Status: SUCCESS
 //   	 - Description: "dereference failure: pointer invalid"
 //   	 - Location: miniz_oxide/src/inflate/core.rs:433:23 in function <inflate::core::State as core::cmp::PartialEq>::eq
 //   
-//   Check 351: <inflate::core::State as core::cmp::PartialEq>::eq.pointer_dereference.9
+//   Check 352: <inflate::core::State as core::cmp::PartialEq>::eq.pointer_dereference.9
 //   	 - Status: SUCCESS
 //   	 - Description: "dereference failure: deallocated dynamic object"
 //   	 - Location: miniz_oxide/src/inflate/core.rs:433:23 in function <inflate::core::State as core::cmp::PartialEq>::eq
 //   
-//   Check 352: <inflate::core::State as core::cmp::PartialEq>::eq.pointer_dereference.10
+//   Check 353: <inflate::core::State as core::cmp::PartialEq>::eq.pointer_dereference.10
 //   	 - Status: SUCCESS
 //   	 - Description: "dereference failure: dead object"
 //   	 - Location: miniz_oxide/src/inflate/core.rs:433:23 in function <inflate::core::State as core::cmp::PartialEq>::eq
 //   
-//   Check 353: <inflate::core::State as core::cmp::PartialEq>::eq.pointer_dereference.11
+//   Check 354: <inflate::core::State as core::cmp::PartialEq>::eq.pointer_dereference.11
 //   	 - Status: SUCCESS
 //   	 - Description: "dereference failure: pointer outside object bounds"
 //   	 - Location: miniz_oxide/src/inflate/core.rs:433:23 in function <inflate::core::State as core::cmp::PartialEq>::eq
 //   
-//   Check 354: <inflate::core::State as core::cmp::PartialEq>::eq.pointer_dereference.12
+//   Check 355: <inflate::core::State as core::cmp::PartialEq>::eq.pointer_dereference.12
 //   	 - Status: SUCCESS
 //   	 - Description: "dereference failure: invalid integer address"
 //   	 - Location: miniz_oxide/src/inflate/core.rs:433:23 in function <inflate::core::State as core::cmp::PartialEq>::eq
 //   
-//   Check 355: inflate::core::decompress_fast.unwind.0
+//   Check 356: inflate::core::decompress_fast.unwind.0
 //   	 - Status: SUCCESS
 //   	 - Description: "unwinding assertion loop 0"
 //   	 - Location: miniz_oxide/src/inflate/core.rs:1236:9 in function inflate::core::decompress_fast
 //   
-//   Check 356: inflate::core::decompress_fast.unwind.1
+//   Check 357: inflate::core::decompress_fast.unwind.1
 //   	 - Status: SUCCESS
 //   	 - Description: "unwinding assertion loop 1"
 //   	 - Location: miniz_oxide/src/inflate/core.rs:1236:9 in function inflate::core::decompress_fast
 //   
 //   
 //   SUMMARY:
-//    ** 2 of 354 failed (3 unreachable)
+//    ** 2 of 355 failed (3 unreachable)
 //   
 //    ** 2 of 2 cover properties satisfied
 //   
@@ -59,7 +59,7 @@
 //    File: "miniz_oxide/src/inflate/output_buffer.rs", line 61, in inflate::output_buffer::OutputBuffer::<'_>::bytes_left
 //   
 //   VERIFICATION:- FAILED
-//   Verification Time: 200.53758s
+//   Verification Time: 211.38414s
 //   
 //   Manual Harness Summary:
 //   Verification failed for - inflate::core::verif_inflate_core::k_decompress_fast_bounded
